@@ -352,7 +352,10 @@ def normalise(v):
     if tn in ("Seq", "MutableSeq"):
         return str(v)
     if tn in ("SimpleLocation", "FeatureLocation"):
-        return ["loc", int(v.start), int(v.end), v.strand]
+        from .models.bio import position_kind
+
+        kinds = [position_kind(v.start), position_kind(v.end)]
+        return ["loc", int(v.start), int(v.end), v.strand] + ([kinds] if kinds != ["exact", "exact"] else [])
     if tn == "CompoundLocation":
         return ["join", [normalise(p) for p in v.parts], v.operator]
     if tn == "SeqFeature":
